@@ -27,8 +27,8 @@ RULE = ("Reaction systems are JSON descriptions built by construction (species =
         "given as None/list/str/explicit Substance objects in a drawn order.  Rate constants log-uniform over 8 "
         "decades (12 in 'net_wide'), c0 in {0, 1, 10**[-3,3]}, 3-8 output times log-uniform from 0.01/k_max to "
         "10/k_min after t0.  Non-trivial (net): the network has a branch or a cycle and >= 3 decades between its "
-        "fastest and slowest constant and at least one reactant is initially present; (bimol): a reversible step, or a0 = b0, or a dimerisation.  Distinct by case "
-        "digest.")
+        "fastest and slowest constant and at least one reactant is initially present; (bimol): a reversible step, or "
+        "a0 = b0, or a dimerisation.  Distinct by case digest.")
 ASSUMPTIONS = [
     "scipy's LSODA (through pyodesys 0.14.7) is the delegated solver; its failure or an unsuccessful info flag is "
     "counted as inconclusive",
@@ -39,15 +39,23 @@ ASSUMPTIONS = [
 
 RTOL = 1e-10          # requested from the solver; atol = 1e-10 * S
 AGREE = 1e-6          # |yout - exact| <= AGREE * S       (S = largest elemental total concentration)
+AGREE_WIDE = 1e-5     # the same for 'net_wide' (12 decades of time scales, see TOLERANCES)
 ADMIT = 1e-7          # -ADMIT*S <= yout <= elemental bound + ADMIT*S
 TOLERANCES = {
     "requested": "rtol = 1e-10, atol = 1e-10*S, S = max over elements of the total elemental concentration of c0",
-    "agreement": "|yout - exact| <= 1e-6*S (4 decades above the requested local tolerance; calibration on the pinned "
-                 "tree, 30 000 networks over 8 decades + 10 000 over 12 decades + 14 000 bimolecular: worst see "
-                 "evidence labels 'dev<=1e-k'; a rate mis-scaled by a stoichiometric factor moves yout by O(S))",
-    "admissible": "yout >= -1e-7*S and yout <= min_e(supply_e/atoms_e) + 1e-7*S (3 decades above atol)",
+    "agreement": "|yout - exact| <= 1e-6*S for 'net' and 'bimol' (4 decades above the requested local tolerance), "
+                 "1e-5*S for 'net_wide'.  Calibration on the pinned tree (labels 'dev<=1e-k' = worst deviation / S of "
+                 "a case): 36 000 networks over 8 decades: all <= 1e-8 (122 cases above 1e-9); 18 000 bimolecular "
+                 "systems: all <= 1e-8 (1 above 1e-9); 16 000 networks over 12 decades / <= 10 species: all <= 1e-7 "
+                 "(12 above 1e-8; largest of a separately measured 3 200-case sample: 2.8e-8 at nfev = 97, i.e. LSODA's "
+                 "error control rather than accumulation over many steps) - "
+                 "hence one more decade for 'net_wide'; >= 100x slack everywhere.  A rate mis-scaled by a "
+                 "stoichiometric factor moves yout by O(S).",
+    "admissible": "yout >= -1e-7*S and yout <= min_e(supply_e/atoms_e) + 1e-7*S (3 decades above atol; calibration, "
+                  "labels 'outside<=1e-k': largest excursion in 16 000 systems <= 1e-10*S)",
     "xout": "|xout - tout| <= 1e-12*max(1,|tout|)",
-    "euler": "0 < h <= 1 and every component of c0 + h*f_exact(c0) in [-eps, bound + eps*W], "
+    "euler": "at (t0, c0): 0 < h <= 1 and every component of c0 + h*f_exact(c0) in [-eps, bound + eps*W]; at the "
+             "middle output time with state max(yout, 0): h <= 1 and, if h > 0, the same containment; "
              "eps = 1e-12*(S + h*sum|terms of f|) (h = -y/f is formed in float64: the overshoot is at most "
              "h*|f_float - f_exact| <= h*n*2**-53*sum|terms|), W = number of atoms summed over all species",
     "upper_conc_bounds": "bound_chempy <= elemental bound*(1+1e-12) and bound_chempy >= exact c_i(t)*(1-1e-9) at "
@@ -95,9 +103,52 @@ def _labels(case, ctx, S):
     return stc
 
 
-def judge(case, ctx, exact, kind):
+def _euler_clause(case, ctx, cb, t, state, keys, text, where):
+    """h = max_euler_step_cb(t, state): state + h*f_exact(state) must stay inside [0, elemental bound of `state`].
+
+    At (t0, c0) the step must also be a step, 0 < h <= 1 (c0 entries are 0 or within [1e-3, 1e3], so neither y/|f| nor
+    (bound - y)/f can round to 0).  At a later state of the trajectory (concentrations may span > 16 decades, where
+    bound - y legitimately rounds to 0) only safety of a positive h is judged."""
+    n = len(keys)
+    y = [Fraction(v) for v in state]
+    yd = {k: float(v) for k, v in zip(keys, state)}
+    S = G.scale(case, y)
+    bounds = G.elemental_bounds(case, y)
+    h = cb(t, dict(yd))
+    f, aterms = G.rates_exact(case, y)
+    try:
+        hf = float(h)
+    except (TypeError, ValueError):
+        hf = float("nan")
+    if not (0 < hf <= 1):
+        if where == "t0" or hf > 1 or hf != hf:
+            ctx.fail("euler_step_not_in_(0,1]", text=text, h=repr(h), state=yd, at=where, f=[float(x) for x in f])
+        else:
+            ctx.label("euler_%s:h<=0" % where)
+        return
+    hq = Fraction(hf)
+    # h = -y_i/f_i is formed from a float64 f: |f_float - f_exact| <= ~n*2**-53*sum|terms|, so the exact step may
+    # overshoot by h*that; 1e-12 leaves a factor > 100 over 12 terms
+    eps = Fraction(1, 10 ** 12) * (S + hq * sum(aterms))
+    # comp_i[e]*y_i = total_e - sum_{j != i} comp_j[e]*y_j <= total_e + eps*sum_j comp_j[e]  (f conserves e exactly)
+    W = sum(v for cj in G.comps(case) for z, v in cj.items() if z != 0)
+    for i in range(n):
+        y1 = y[i] + hq * f[i]
+        if y1 < -eps:
+            ctx.fail("euler_step_negative", text=text, species=keys[i], h=hf, state=yd, at=where, after=float(y1),
+                     eps=float(eps), f=float(f[i]))
+            return
+        if y1 > bounds[i] + eps * W:
+            ctx.fail("euler_step_above_bound", text=text, species=keys[i], h=hf, state=yd, at=where, after=float(y1),
+                     bound=float(bounds[i]), eps=float(eps))
+            return
+    ctx.label("euler_%s:%s" % (where, "h=1" if hf == 1 else "h<1"))
+
+
+def judge(case, ctx, exact, kind, agree=None):
     """Shared oracle: `exact` = list (per output time) of per-species exact concentrations (Fractions/floats)."""
     import numpy as np
+    agree = AGREE if agree is None else agree
     n = len(case["species"])
     keys = [s["key"] for s in case["species"]]
     c0 = [Fraction(x) for x in case["c0"]]
@@ -139,36 +190,12 @@ def judge(case, ctx, exact, kind):
                     ub_ok = False
                     break
 
-    # ---- explicit Euler step -----------------------------------------------------------------------------------
+    # ---- explicit Euler step at (t0, c0) ---------------------------------------------------------------------------
     cb = extra.get("max_euler_step_cb")
     if cb is None:
         ctx.fail("max_euler_step_cb_missing", text=text)
     else:
-        h = cb(case["t0"], dict(c0d))
-        f, aterms = G.rates_exact(case, c0)
-        try:
-            hf = float(h)
-        except (TypeError, ValueError):
-            hf = float("nan")
-        if not (0 < hf <= 1):
-            ctx.fail("euler_step_not_in_(0,1]", text=text, h=repr(h), c0=c0d, f=[float(x) for x in f])
-        else:
-            hq = Fraction(hf)
-            eps = Fraction(1, 10 ** 12) * (S + hq * sum(aterms))
-            for i in range(n):
-                y1 = c0[i] + hq * f[i]
-                # comp_i[e]*y_i = total_e - sum_{j != i} comp_j[e]*y_j <= total_e + eps*sum_j comp_j[e]  (f conserves e exactly)
-                W = sum(v for cj in G.comps(case) for z, v in cj.items() if z != 0)
-                if y1 < -eps:
-                    ctx.fail("euler_step_negative", text=text, species=keys[i], h=hf, c0=c0d, after=float(y1),
-                             eps=float(eps), f=float(f[i]))
-                    break
-                if y1 > bounds[i] + eps * W:
-                    ctx.fail("euler_step_above_bound", text=text, species=keys[i], h=hf, c0=c0d, after=float(y1),
-                             bound=float(bounds[i]), eps=float(eps))
-                    break
-            # the largest safe step for the exact right-hand side (label only: is the constraint active?)
-            ctx.label("euler:h=1" if hf == 1 else "euler:h<1")
+        _euler_clause(case, ctx, cb, case["t0"], [float(v) for v in case["c0"]], keys, text, "t0")
 
     # ---- integration -----------------------------------------------------------------------------------------
     res = sut(odesys.integrate, np.array(tout, dtype=float), dict(c0d), integrator="scipy",
@@ -196,13 +223,15 @@ def judge(case, ctx, exact, kind):
         ctx.fail("yout_not_finite", text=text, c0=c0d, tout=tout)
         return
     worst = 0.0
+    worst_adm = 0.0      # largest excursion outside [0, bound], in units of S
     rows = [[float(v) for v in case["c0"]]] + [[float(v) for v in row] for row in exact]
     for it, ref in enumerate(rows):
         for i in range(n):
             y = float(yout[it, col[i]])
             d = abs(y - ref[i])
             worst = max(worst, d / Sf)
-            if d > AGREE * Sf:
+            worst_adm = max(worst_adm, -y / Sf, (y - float(bounds[i])) / Sf)
+            if d > agree * Sf:
                 ctx.fail("disagrees_with_exact_solution", text=text, species=keys[i], t=tout[it], got=y,
                          exact=ref[i], scale=Sf, c0=c0d, kind=kind)
                 return
@@ -217,18 +246,29 @@ def judge(case, ctx, exact, kind):
                 ctx.fail("upper_conc_bounds_below_reachable", text=text, species=keys[i], got=ub[i], reached=ref[i],
                          at=tout[it], c0=c0d)
                 return
-    ctx.label("dev<=1e-%d" % (12 if worst <= 1e-12 else 10 if worst <= 1e-10 else 9 if worst <= 1e-9 else
-                              8 if worst <= 1e-8 else 7 if worst <= 1e-7 else 6))
+    if cb is not None:
+        mid = len(tout) // 2
+        _euler_clause(case, ctx, cb, tout[mid], [max(0.0, float(yout[mid, col[i]])) for i in range(n)], keys, text, "mid")
+    def bucket(w):
+        for k in (12, 10, 9, 8, 7, 6):
+            if w <= 10.0 ** -k:
+                return k
+        return 5
+    ctx.label("dev<=1e-%d" % bucket(worst), "outside<=1e-%d" % bucket(worst_adm))
 
 
-def check_net(case, ctx):
+def check_net(case, ctx, agree=None):
     G.validate(case)
     c0 = [Fraction(x) for x in case["c0"]]
     stc = _labels(case, ctx, G.scale(case, c0))
     moving = any(case["c0"][r["reac"][0][0]] > 0 for r in case["rxns"])
     ctx.nontrivial((stc["branch"] or stc["cycle"]) and stc["decades"] >= 3 and moving)
     exact = G.linear_solution(case)
-    judge(case, ctx, exact, "expm")
+    judge(case, ctx, exact, "expm", agree)
+
+
+def check_net_wide(case, ctx):
+    check_net(case, ctx, AGREE_WIDE)
 
 
 def check_bimol(case, ctx):
@@ -250,7 +290,7 @@ SUBCHECKS = [
     SubCheck("net", check_net, strategy=G.networks(max_species=7, max_rxns=8, decades=8), quick=900, thorough=30000,
              rule="first-order networks, <= 7 species, <= 8 reactions, constants over 8 decades; oracle exp(M(t-t0)) c0",
              tolerances=TOLERANCES),
-    SubCheck("net_wide", check_net, strategy=G.networks(max_species=10, max_rxns=12, decades=12), quick=150,
+    SubCheck("net_wide", check_net_wide, strategy=G.networks(max_species=10, max_rxns=12, decades=12), quick=150,
              thorough=10000,
              rule="first-order networks, <= 10 species, <= 12 reactions, constants over 12 decades",
              tolerances=TOLERANCES),
